@@ -1,0 +1,33 @@
+//go:build verif
+
+// Verification contracts (comments only; compiled only with -tags verif).
+// Checked by /verif/bin/govc; see /verif/DESIGN.md.
+
+package first
+
+//@ type Service
+//@   valid self.clientMonitor != nil && self.beaconBlockHeadersProviders != nil
+//@   valid forall n string :: in(self.beaconBlockHeadersProviders, n) ==> self.beaconBlockHeadersProviders[n] != nil
+//@
+//@ // ---- C20: the goroutines a request starts all end, whether or not anybody still listens ----
+//@
+//@ // a node's goroutine sends at most one result, on the channel it is handed
+//@ func (*Service).BeaconBlockHeader$1
+//@   thread
+//@   requires s != nil && opts != nil && provider != nil && !closed(ch)
+//@   chaninv ch (m): m != nil
+//@   // errors.As reports true only after setting its target
+//@   assumes call As#1 (r): r ==> apiErr != nil
+//@   exit sends() <= 1
+//@
+//@ func (*Service).BeaconBlockHeader
+//@   requires s != nil && opts != nil
+//@   // nstarted: the number of goroutines started so far. A goroutine is only started while the result channel it is
+//@   // handed still has room for one more result than there are goroutines already: as each goroutine sends at most
+//@   // once, no send can block, even when the requester has taken the first result (or timed out) and gone
+//@   chaninv respCh (m): m != nil
+//@   ghost nstarted Int = 0
+//@   at call go#1: assert nstarted < chancap(arg3)
+//@   at call go#1: ghost nstarted = nstarted + 1
+//@   loop 1
+//@     invariant nstarted == nvisited()
